@@ -18,7 +18,7 @@ RULE = ("call sequences over {open_rx_pipe(0|1|2,a), close_rx_pipe(0|1), open_tx
 REQUIRED = {"rx_entry_pipe0": 300, "probe_user_addr": 100, "probe_tx_addr": 50,
             "tx_pipe0_ack_addr": 200, "send_probe": 100, "ce_at_return": 2000,
             "prim_rx_flip_ce": 500}
-BUDGET = {"quick": 150, "thorough": 500}
+BUDGET = {"quick": 480, "thorough": 900}
 
 A = "e1f0f0f0f0"
 B = "e1f0f0"
